@@ -50,7 +50,11 @@ MUT = [
  ("c17-orphan-no-leader-dedupe", "chain/src/utils/orphan_block_pool.rs", "        self.leaders.remove(&hash);\n", "", "C17", "m8"),
  ("c17-orphan-leader-always", "chain/src/utils/orphan_block_pool.rs", "        if !self.parents.contains_key(&parent_hash) {", "        if !self.parents.contains_key(&hash) {", "C17", "m8"),
  ("c17-orphan-release-children-only", "chain/src/utils/orphan_block_pool.rs", "                queue.extend(hashes);\n", "                let _ = &hashes;\n", "C17", "m8"),
- ("c17-orphan-parents-not-cleared", "chain/src/utils/orphan_block_pool.rs", "                for hash in hashes.iter() {\n                    self.parents.remove(hash);\n                }", "                for hash in hashes.iter().skip(1) {\n                    self.parents.remove(hash);\n                }", "C17", "m8")
+ ("c17-orphan-parents-not-cleared", "chain/src/utils/orphan_block_pool.rs", "                for hash in hashes.iter() {\n                    self.parents.remove(hash);\n                }", "                for hash in hashes.iter().skip(1) {\n                    self.parents.remove(hash);\n                }", "C17", "m8"),
+ ("c17-inflight-block-stays-in-peer-set", "sync/src/types/mod.rs", "                    set.hashes.remove(&block);\n                    if adjustment {", "                    if adjustment {", "C17", "m9"),
+ ("c17-inflight-peer-leaves-states", "sync/src/types/mod.rs", "                for block in blocks.hashes {\n                    state.remove(&block);", "                for block in blocks.hashes {", "C17", "m9"),
+ ("c17-inflight-trace-strict", "sync/src/types/mod.rs", "        if self.restart_number >= block.number {", "        if self.restart_number > block.number {", "C17", "m9"),
+ ("c17-inflight-second-request-overwrites", "sync/src/types/mod.rs", "            Entry::Occupied(_entry) => return false,", "            Entry::Occupied(mut entry) => entry.insert(InflightState::new(peer)),", "C17", "m9"),
 ]
 sel = set(sys.argv[1:])
 for name, path, old, new, pid, only in MUT:
